@@ -7,6 +7,7 @@
 (* e.i is new (then recorded) or seen[e.i] = e.o.  A run is accepted iff the  *)
 (* machine consumes it completely; otherwise the verdict names the first      *)
 (* event it cannot take and the earlier event that contradicts it.            *)
+(* (first = 0: an identity-law run whose event `at` has output # input.)      *)
 EXTENDS Integers, Sequences, TLC, Json, IOUtils
 
 Runs == ndJsonDeserialize(IOEnv.TRACE)
@@ -20,9 +21,15 @@ Consume(evs, k, seen) ==
        ELSE Consume(evs, k + 1, seen @@ (e.i :> e.o))
 EmptyMemo == [x \in {} |-> ""]
 
+\* runs recorded for an identity law (round trips: the output must be the input itself) carry law = "identity"
+IdentityBad(run) == IF "law" \in DOMAIN run /\ run.law = "identity" /\ \E k \in 1..Len(run.ev) : run.ev[k].i # run.ev[k].o
+                    THEN CHOOSE k \in 1..Len(run.ev) : run.ev[k].i # run.ev[k].o /\ \A k2 \in 1..(k - 1) : run.ev[k2].i = run.ev[k2].o
+                    ELSE 0
+
 Verdict(run) ==
   LET bad == Consume(run.ev, 1, EmptyMemo) IN
-  IF bad = 0 THEN [f |-> run.f, ok |-> TRUE, at |-> 0, first |-> 0]
+  IF IdentityBad(run) # 0 THEN [f |-> run.f, ok |-> FALSE, at |-> IdentityBad(run), first |-> 0]
+  ELSE IF bad = 0 THEN [f |-> run.f, ok |-> TRUE, at |-> 0, first |-> 0]
   ELSE [f |-> run.f, ok |-> FALSE, at |-> bad,
         first |-> CHOOSE j \in 1..(bad - 1) : run.ev[j].i = run.ev[bad].i /\ \A j2 \in 1..(bad - 1) : run.ev[j2].i = run.ev[bad].i => j2 >= j]
 
